@@ -580,6 +580,11 @@ pub fn run(a: &Args) -> Option<Report> {
         if metrics::set_global_recorder(g).is_err() {
             rep.inconclusive("could not install global double");
         }
+        // a second installation is refused and must leave the first one in force for every emission that follows
+        let spare_log = doubles::new_log();
+        if metrics::set_global_recorder(LogRecorder::new(7, &spare_log)).is_ok() {
+            rep.violation("C01:second-global-install-accepted", jo! {"what" => "set_global_recorder succeeded although a global recorder was already installed"});
+        }
     }
     let programs = if miri { 3 } else { a.budget(2000, 200_000) };
     let mut form_cov: std::collections::BTreeSet<(u8, bool, usize)> = std::collections::BTreeSet::new();
@@ -727,6 +732,11 @@ fn run_late_global(a: &Args) -> Report {
     phase.wait();
     let g = LogRecorder::new(0, &global_log);
     let installed = metrics::set_global_recorder(g).is_ok();
+    // half of the processes also see a refused second installation before the threads go on
+    if a.shard % 2 == 1 {
+        let spare_log = doubles::new_log();
+        let _ = metrics::set_global_recorder(LogRecorder::new(7, &spare_log));
+    }
     phase.wait();
     let mut local_total = 0;
     for h in hs {
